@@ -71,6 +71,11 @@ def run(ch, fams, modes, ctimeout):
             if steps > 40:
                 trace.append(("horizon",))
                 break
+            if ctimeout and not fut.done() and start_exc is None:
+                whens = [round(t[0], 6) for t in w.loop.timers()]
+                if 5.0 not in whens:
+                    trace.append(("timeout-not-armed", whens))
+                    break
             pend = sorted(i for i, s in inflight.items() if not s.fut.done())
             events = []
             for i in pend:
@@ -126,6 +131,10 @@ def judge(fams, modes, ctimeout, o):
                 want = ("timeout",)
         elif ev[0] == "horizon":
             bad.append(("horizon", "no quiescence"))
+        elif ev[0] == "timeout-not-armed":
+            bad.append(("connect-timeout-not-armed", "the future is pending but no timer is scheduled for the connect "
+                        "timeout (t=5.0); timers at %r" % (ev[1],)))
+            return bad
         if want is None and len(failed) == n:
             want = ("error",)
     res = o["res"]
@@ -188,20 +197,28 @@ class C10(Check):
     rule = ("every address list in {4,6}^{1..N} x per-address mode {pending, already-failed future, connect "
             "raises} (at most two non-pending) x connect timeout on/off; at each quiescent point the explorer "
             "picks one enabled event {attempt i succeeds, attempt i fails, earliest timer fires}; exhaustive "
-            "(no deviation bound); state = one complete schedule; non-trivial = schedules with >= 2 events")
+            "(no deviation bound); (b) the public TCPClient.connect() with a fake resolver and fake sockets under the real "
+            "IOStream: address lists in {4,6}^{1..2} (thorough 3) x timeout {none, 5.0, timedelta 1.5 s, timedelta 1 day "
+            "+ 5 s} x source_ip with every subset of addresses whose bind fails, same events; state = one complete schedule; non-trivial = schedules with >= 2 events")
     claim = ("On every schedule the real _Connector settles its future exactly once with the first success in "
              "event order, or TimeoutError if the connect timeout fired first, or an error only after every "
              "address failed; never earlier, never stuck; every other opened stream is closed at quiescence; "
-             "at most one attempt per family is in flight.")
+             "at most one attempt per family is in flight; while the future is pending the connect timeout stays armed "
+             "at exactly now + timeout (float and timedelta), and every socket TCPClient created - including those "
+             "whose bind failed - is closed unless it is the winner.")
     technique = "exhaustive stateless schedule exploration (DevEx, unbounded) of the real code with a trace-based reference"
     assumptions = ["fake streams fail their pending connect future on close(), like IOStream"]
 
     def partitions(self, tier):
         N = 3 if tier == "quick" else 5
         sc = list(scenarios(N, True))
-        return [(N, s, 48) for s in range(48)]
+        return [(N, s, 48) for s in range(48)] + [("client", s, 8) for s in range(8)]
 
     def run_partition(self, part, tier, st):
+        if part[0] == "client":
+            from checks import c10_client
+            c10_client.run_all(tier, st, part[1], part[2])
+            return
         N, s, nsl = part
         for k, (fams, modes, ct) in enumerate(scenarios(N, True)):
             if k % nsl != s:
@@ -229,6 +246,9 @@ class C10(Check):
         st.setmax("max_addresses", N)
 
     def replay(self, case):
+        if case.get("kind") == "client":
+            from checks import c10_client
+            return c10_client.replay(case)
         fams, modes, ct = tuple(case["fams"]), tuple(case["modes"]), case["ct"]
         o = run(devex.Chooser(case["choices"]), fams, modes, ct)
         return "families %r modes %r connect_timeout %r\n%r\nverdict %r" % (fams, modes, ct, o, judge(fams, modes, ct, o))
